@@ -192,9 +192,107 @@ def check_doc(doc, obs, case):
                           case, repr(e)[:200])
 
 
+# ------------------------------------------------------------ late codecs
+# Codecs and aliases that become known to the interpreter only after pydiffx
+# was imported (a plug-in registering a search function, an application
+# adding to encodings.aliases), some of them after a first use that failed
+# because the name did not resolve yet.
+LATE_ALIASES = {'verifalias16': 'utf_16', 'verifalias32': 'utf_32',
+                'verifalias8sig': 'utf_8_sig', 'verifalias16be': 'utf_16_be'}
+_late = {'done': False}
+
+
+def _norm(name):
+    return name.lower().replace('-', '').replace('_', '').replace(' ', '')
+
+
+def ensure_late_codecs(obs=None):
+    """Returns {late name: canonical codec}."""
+    import codecs
+    import io
+    import encodings.aliases
+    from mon.gen import warmup
+    table = dict(warmup.LATE_CODECS)
+    out = dict(table)
+    out.update({k: v.replace('_', '-') for k, v in LATE_ALIASES.items()})
+    if _late['done']:
+        return out
+    import pydiffx.utils.text as text
+    from pydiffx.writer import DiffXWriter
+    # 1. first use while the names do not resolve: every outcome is fine
+    for name in table:
+        for fn, args in ((text.strip_bom, (b'\xff\xfe\n\x00', name)),
+                         (text.get_newline_for_type, ('unix', name)),
+                         (text.get_newline_for_type, ('dos', name)),
+                         (text.guess_line_endings, ('a\nb\n', name)),
+                         (text.guess_line_endings, (b'a\r\nb\r\n', name))):
+            try:
+                fn(*args)
+            except Exception:
+                pass
+        try:
+            w = DiffXWriter(io.BytesIO(), encoding='utf-8')
+            w.new_change()
+            w.new_file()
+            w.write_meta({'k': 'v'})
+            w.write_diff(b'--- a\n+++ b\n', encoding=name)
+        except Exception:
+            pass
+        try:
+            common.read_records(b'#diffx: encoding=%s, version=1.0\n'
+                                b'#.preamble: length=2\na\n' % name.encode())
+        except Exception:
+            pass
+    # 2. the plug-in arrives
+    keyed = {_norm(k): v for k, v in table.items()}
+
+    def search(name):
+        target = keyed.get(_norm(name))
+        if target is None:
+            return None
+        return codecs.lookup(target)
+    codecs.register(search)
+    # 3. aliases added to the interpreter's table (never looked up before)
+    encodings.aliases.aliases.update(LATE_ALIASES)
+    _late['done'] = True
+    if obs is not None:
+        obs.count('late_codecs_registered', len(out))
+    return out
+
+
+def late_codec_pass(ctx):
+    obs = ctx.obs
+    late = ensure_late_codecs(obs)
+    items = sorted(late.items())
+    for i, (name, canon) in enumerate(items):
+        try:
+            if ''.encode(name) != ''.encode(canon) or \
+                    'a\n'.encode(name) != 'a\n'.encode(canon):
+                raise LookupError(name)
+        except LookupError:
+            # this interpreter does not resolve the late name: nothing to
+            # observe (counted; never a verdict)
+            obs.count('late_codec_not_resolvable')
+            continue
+        for sp in (name, name.upper()):
+            obs.count('late_codec_spellings')
+            helper_checks(sp, canon, obs)
+            wheres = ('own', 'change', 'main')
+            for j, t in enumerate(texts_for(canon)):
+                for le in (None, 'unix', 'dos'):
+                    if (i + j + ctx.index) % 4 and ctx.quick:
+                        continue
+                    where = wheres[(i + j) % 3]
+                    case = {'spelling': sp, 'line_endings': le, 'text': t,
+                            'where': where, 'late': True}
+                    obs.case((sp, le, t, where, 'late'), nontrivial=True)
+                    check_doc(doc_for(sp, le, t, where), obs, case)
+
+
 def run(ctx):
     obs = ctx.obs
     rng = ctx.rng
+    late_codec_pass(ctx)
     cat = codecs_cat.catalogue()
     items = []
     import random as _random
@@ -251,7 +349,11 @@ def replay(case, obs):
     if case.get('kind') == 'contract':
         case = {'spelling': case['witness']['encoding']}
     sp = case['spelling']
-    canon = codecs_cat.canonical(sp)
+    if case.get('late'):
+        canon = {_norm(k): v for k, v in
+                 ensure_late_codecs().items()}[_norm(sp)]
+    else:
+        canon = codecs_cat.canonical(sp)
     if 'text' in case:
         check_doc(doc_for(sp, case.get('line_endings'), case['text'],
                           case.get('where', 'own')), obs, case)
